@@ -12,6 +12,7 @@ ap.add_argument('--prop'); ap.add_argument('--only'); ap.add_argument('--seeded'
 ap.add_argument('--repo', default=os.environ.get('VIPCHECK_REPO', '/repo'))
 ap.add_argument('-v', action='store_true')
 ap.add_argument('--patch', action='append', default=[])
+ap.add_argument('--summary')
 a = ap.parse_args()
 env = dict(os.environ, GOFLAGS='-mod=mod', GOPROXY='off', GOSUMDB='off', GOTOOLCHAIN='local'); env.pop('GOWORK', None)
 muts = json.load(open(os.path.join(here, 'selftest', 'mutants.json')))
@@ -62,11 +63,16 @@ def run(m):
         shutil.rmtree(tmp, ignore_errors=True)
 
 res = {'fired': 0, 'fired-other': 0, 'missed': 0, 'skipped': 0}
+gaps = []
 with cf.ThreadPoolExecutor(a.j) as ex:
     for m, st, info in ex.map(run, muts):
         res[st] += 1
+        if st == 'missed': gaps.append(m['name'])
         tag = {'fired': 'FIRED', 'fired-other': 'FIRED-OTHER', 'missed': 'SENSITIVITY-GAP', 'skipped': 'SKIPPED'}[st]
         if st != 'fired' or a.v:
             print('%-16s %s %-40s %s' % (tag, m['prop'], m['name'], info))
 print('sensitivity: applied=%d fired=%d fired-other=%d missed=%d skipped=%d' % (len(muts) - res['skipped'], res['fired'], res['fired-other'], res['missed'], res['skipped']))
-json.dump(res, open(os.path.join(tempfile.gettempdir(), 'vip-selftest-last.json'), 'w'))
+res['applied'] = len(muts) - res['skipped']
+res['gaps'] = gaps
+if a.summary:
+    json.dump(res, open(a.summary, 'w'))
